@@ -15,9 +15,18 @@ import (
 	"reflect"
 	"testing"
 
+	ipfscluster "github.com/ipfs/ipfs-cluster"
 	"github.com/ipfs/ipfs-cluster/api"
+	"github.com/ipfs/ipfs-cluster/cmdutils"
+	"github.com/ipfs/ipfs-cluster/config"
+	"github.com/ipfs/ipfs-cluster/consensus/crdt"
+	"github.com/ipfs/ipfs-cluster/consensus/raft"
+	"github.com/ipfs/ipfs-cluster/datastore/badger"
+	"github.com/ipfs/ipfs-cluster/datastore/leveldb"
 
 	cid "github.com/ipfs/go-cid"
+	logging "github.com/ipfs/go-log/v2"
+	peer "github.com/libp2p/go-libp2p-core/peer"
 
 	"verifharness/hx"
 )
@@ -132,6 +141,8 @@ func runState(e *env, id int, c seqCase) (o seqObs) {
 				return fail(err)
 			}
 		}
+	case "export-real":
+		return runRealExport(e, id, c, o)
 	default:
 		return fail(fmt.Errorf("unknown state format %s", c.Fmt))
 	}
@@ -225,6 +236,7 @@ func runList(e *env, id int, c seqCase) (o seqObs) {
 }
 
 func TestSequences(t *testing.T) {
+	logging.SetAllLoggers(logging.LevelPanic)
 	res := hx.NewResult()
 	defer res.Write()
 	lines, err := hx.LoadCases()
@@ -258,7 +270,7 @@ func TestSequences(t *testing.T) {
 				}
 			}()
 			switch c.Fmt {
-			case "snapshot-fresh", "snapshot-nonempty", "export":
+			case "snapshot-fresh", "snapshot-nonempty", "export", "export-real":
 				o = runState(e, i+1, c)
 			default:
 				o = runList(e, i+1, c)
@@ -285,4 +297,105 @@ func TestSequences(t *testing.T) {
 	res.Set("sequences_executed", len(lines))
 	res.Set("sequence_items_executed", items)
 	res.Set("sequences_per_record_and_format", per)
+}
+
+// ---- the real state export / import of cmdutils (Raft peer, offline) -------------------------------------------
+
+func raftMgr(base string, ident *config.Identity) (cmdutils.StateManager, *cmdutils.Configs, error) {
+	cl := &ipfscluster.Config{}
+	if err := cl.Default(); err != nil {
+		return nil, nil, err
+	}
+	cl.SetBaseDir(base)
+	rc := &raft.Config{}
+	rc.Default()
+	rc.SetBaseDir(base)
+	cc := &crdt.Config{}
+	cc.Default()
+	cc.SetBaseDir(base)
+	bc := &badger.Config{}
+	bc.Default()
+	bc.SetBaseDir(base)
+	lc := &leveldb.Config{}
+	lc.Default()
+	lc.SetBaseDir(base)
+	cfgs := &cmdutils.Configs{Cluster: cl, Raft: rc, Crdt: cc, Badger: bc, LevelDB: lc}
+	m, err := cmdutils.NewStateManager("raft", "", ident, cfgs)
+	return m, cfgs, err
+}
+
+// runRealExport: peer A holds the pins in a Raft snapshot; A.ExportState -> B.ImportState (the real importState
+// loop) -> offline read of B's state.
+func runRealExport(e *env, id int, c seqCase, o seqObs) (out seqObs) {
+	out = o
+	stage := "setup"
+	defer func() {
+		if r := recover(); r != nil {
+			out.OK, out.Stage, out.Err = false, "panic-"+stage, fmt.Sprint(r)
+		}
+	}()
+	fail := func(err error) seqObs { out.Stage, out.Err = stage, err.Error(); return out }
+	ctx := context.Background()
+	base, err := os.MkdirTemp("", "verif-c08-exp-")
+	if err != nil {
+		panic(err)
+	}
+	defer os.RemoveAll(base)
+	identA := &config.Identity{ID: e.names.Peer("expA")}
+	identB := &config.Identity{ID: e.names.Peer("expB")}
+	ma, cfgA, err := raftMgr(base+"/a", identA)
+	if err != nil {
+		return fail(err)
+	}
+	mb, _, err := raftMgr(base+"/b", identB)
+	if err != nil {
+		return fail(err)
+	}
+	src := newState()
+	for i, v := range c.Items {
+		if err := src.Add(ctx, e.slotPin(id, i+1, v)); err != nil {
+			return fail(err)
+		}
+	}
+	if err := raft.SnapshotSave(cfgA.Raft, src, []peer.ID{identA.ID}); err != nil {
+		return fail(err)
+	}
+	stage = "export"
+	var buf bytes.Buffer
+	if err := ma.ExportState(&buf); err != nil {
+		return fail(err)
+	}
+	stage = "import"
+	if err := mb.ImportState(&buf); err != nil {
+		return fail(err)
+	}
+	stage = "read"
+	store, err := mb.GetStore()
+	if err != nil {
+		return fail(err)
+	}
+	defer store.Close()
+	dst, err := mb.GetOfflineState(store)
+	if err != nil {
+		return fail(err)
+	}
+	out.OK = true
+	found := 0
+	for i, v := range c.Items {
+		p, err := dst.Get(ctx, e.slotCid(i+1, v))
+		if err != nil {
+			out.Got = append(out.Got, itemObs{Got: map[string]interface{}{}, Err: err.Error()})
+			continue
+		}
+		found++
+		out.Got = append(out.Got, e.absSlotPin(i+1, p))
+	}
+	all, err := dst.List(ctx)
+	if err != nil {
+		return fail(err)
+	}
+	if out.Extra = len(all) - found; out.Extra < 0 {
+		out.Extra = 0
+	}
+	return out
 }
